@@ -393,10 +393,11 @@ func runC03(c c03Case) *Violation {
 }
 
 func TestC03(t *testing.T) {
-	Ev.Rule = "case = rows from the row grammar (escapes, unicode, every numeric kind, precise/big numbers, raw JSON incl. duplicate keys and exponent forms, nested containers; byte-identical duplicates) padded so several blocks fall in the same pooled scan-buffer size class, all compressions, 1-3 partitions; 1-6 concurrent goroutines each running 1-3 queries (match-all / token / field:token), some closing early and keeping their rows; then 1-4 further full queries. Oracle: (a) each row of a completed query reflect.DeepEquals json.Unmarshal(json.Marshal(ingested row)) and the returned multiset equals the stored one; (b) each received row is deep-copied on receipt, then deep-mutated; at the end every held row must equal its own snapshot / own mutation. pool phase: one file of 3-5 equally sized blocks (300-1200 rows, one scan-buffer size class); a prelude of queries that end abnormally (failed row-data read, silently corrupted read, early Close, cancel), then a query parked mid-scan by a stalled consumer while other queries scan other blocks, GOMAXPROCS 1/2/default; every query ending with Err nil must have returned exactly its own block's rows, faithful and once each. Non-trivial: >=2 concurrent query goroutines, >=2 pool-eligible blocks (>=1 KiB) and a nested container was mutated; distinct by case."
+	Ev.Rule = "case = rows from the row grammar (escapes, unicode, every numeric kind, precise/big numbers, raw JSON incl. duplicate keys and exponent forms, nested containers; byte-identical duplicates) padded so several blocks fall in the same pooled scan-buffer size class, all compressions, 1-3 partitions; 1-6 concurrent goroutines each running 1-3 queries (match-all / token / field:token), some closing early and keeping their rows; then 1-4 further full queries. Oracle: (a) each row of a completed query reflect.DeepEquals json.Unmarshal(json.Marshal(ingested row)) and the returned multiset equals the stored one; (b) each received row is deep-copied on receipt, then deep-mutated; at the end every held row must equal its own snapshot / own mutation. pool phase: one file of 3-5 equally sized blocks (300-1200 rows, one scan-buffer size class); a prelude of queries that end abnormally (failed row-data read, silently corrupted read, early Close, cancel), then a query parked mid-scan by a stalled consumer while other queries scan other blocks, GOMAXPROCS 1/2/default; every query ending with Err nil must have returned exactly its own block's rows, faithful and once each. bigpool phase: the same with ~2.5 MiB blocks and a block filter region of several 4 MiB chunks (170 000 distinct tokens per block at 1e-12), where the prelude fails a later chunk read of the filter pass. Non-trivial: >=2 concurrent query goroutines, >=2 pool-eligible blocks (>=1 KiB) and a nested container was mutated; distinct by case."
 	Ev.Assumptions = []string{"rows whose marshaled form encoding/json cannot decode (e.g. 1e400) are excluded from the fidelity clause, as the property states", "sync.Pool reuse cannot be forced; many sequential scans of same-class blocks make it likely"}
 	runChecks(t, "rows", 200, 4000, genC03(), runC03)
 	runChecks(t, "pool", 120, 3000, genC03Pool(), runC03Pool)
+	runChecks(t, "bigpool", 6, 120, genC03PoolBig(), runC03Pool)
 }
 
 var _ = rapid.Bool
